@@ -549,6 +549,45 @@ def _sum_ok(t, summand, n):
     return bool(lo == 0 and hi == n - 1 and _eq(f, summand))
 
 
+def _order_cases(lo, hi, reversed_too=True):
+    """the orderings of a redshift pair, each as (label, substitution, back-substitution): lo < hi, lo == hi and (for the quantities
+    whose definition extends to reversed pairs through the antisymmetry identity) lo > hi.  Together they are every real pair, so a
+    guard of the code on the order of its two arguments is decided in each of them, whatever its spelling."""
+    r, d = sp.Symbol(lo.name, real=True), sp.Symbol("d_pos", positive=True)
+    cases = [("%s < %s" % (lo, hi), {lo: r, hi: r + d}, {d: hi - lo, r: lo}), ("%s == %s" % (lo, hi), {lo: r, hi: r}, {r: lo})]
+    if reversed_too:
+        cases.append(("%s > %s" % (lo, hi), {lo: r, hi: r - d}, {d: lo - hi, r: lo}))
+    return cases
+
+
+def _sum_ok_every_order(t, summand, n, lo, hi, reversed_too=True):
+    """(True / False / None, description of the first ordering that contradicts): t is sum_{i<n} summand(i) for every ordering of
+    the pair (lo, hi).  A term without guards is compared as it stands; a guarded term (an early return, a clamp, a swap of the
+    bounds) is compared in each ordering after its guards have been decided there.  Where the reference itself is identically zero
+    (an empty interval) the literal 0 is the same value."""
+    if t is None:
+        return None, None
+    if not t.has(sp.Piecewise) and not any(isinstance(x, sp.core.relational.Relational) for x in sp.preorder_traversal(t)):
+        return _sum_ok(t, summand, n), None
+    verdicts, why = [], None
+    for label, case, back in _order_cases(lo, hi, reversed_too):
+        a = _case(t, case)
+        if a is None:
+            verdicts.append(None)
+            continue
+        want = sp.expand(summand.subs(case, simultaneous=True))
+        if want == 0:
+            v = True if a == 0 else _sum_ok(a, want, n)
+        elif a == 0:
+            v = False
+        else:
+            v = _sum_ok(a, summand.subs(case, simultaneous=True), n)
+        if v is False and why is None:
+            why = "for %s it is %s" % (label, a.subs(back, simultaneous=True) if back else a)
+        verdicts.append(v)
+    return _all3(verdicts), why
+
+
 STRUCT_PARAMS = ("DH", "flat", "omega_m", "omega_l", "omega_k")
 STRUCT_KNOWN = STRUCT_PARAMS + ("tcfac", "x", "w", "vx", "vw")
 
@@ -625,8 +664,10 @@ def formulas(chk, lib):
     # integral
     t = low("ez_inverse_integral")
     f1, f2 = (zmax - zmin) / 2, (zmax + zmin) / 2
-    ok = _sum_ok(t, f1 * sp.Function("c.w")(i) * Fn["ez_inverse"](c, sp.Function("c.x")(i) * f1 + f2), 5)
-    chk.ob("R11.1", "ez_inverse_integral::gauss-legendre-sum", ok, W, "(b-a)/2 * sum_{i<5} w_i / E((b-a)/2 x_i + (a+b)/2) (found %s)" % t)
+    # for every ordering of the pair: the same expression for a > b is what makes Dc(a,b) = -Dc(b,a) and every distance built on it
+    ok, why = _sum_ok_every_order(t, f1 * sp.Function("c.w")(i) * Fn["ez_inverse"](c, sp.Function("c.x")(i) * f1 + f2), 5, zmin, zmax)
+    chk.ob("R11.1", "ez_inverse_integral::gauss-legendre-sum", ok, W,
+           "(b-a)/2 * sum_{i<5} w_i / E((b-a)/2 x_i + (a+b)/2) for every ordering of a and b, reversed pairs included (found %s%s)" % (t, "; " + why if why else ""))
     t = low("Dc")
     chk.ob("R11.1", "Dc", _eq(t, DH * Fn["ez_inverse_integral"](c, zmin, zmax)) if t is not None else None, W, "D_C = D_H * integral of 1/E (found %s)" % t)
     t = low("Dm")
@@ -642,8 +683,9 @@ def formulas(chk, lib):
     t = low("dV")
     chk.ob("R11.1", "dV", _eq(t, DH * (1 + z) ** 2 * Fn["Da"](c, 0, z) ** 2 * Fn["ez_inverse"](c, z)) if t is not None else None, W, "dV = D_H (1+z)^2 D_A(0,z)^2 / E(z) (found %s)" % t)
     t = low("V")
-    ok = _sum_ok(t, 4 * sp.pi * f1 * sp.Function("c.vw")(i) * Fn["dV"](c, sp.Function("c.vx")(i) * f1 + f2), 10)
-    chk.ob("R11.1", "V::ten-point-sum-times-4pi", ok, W, "V = 4 pi * (b-a)/2 * sum_{i<10} vw_i dV((b-a)/2 vx_i + (a+b)/2) (found %s)" % t)
+    # the property quantifies the volume over ordered pairs only: a guard on the order is decided for a < b and a == b
+    ok, why = _sum_ok_every_order(t, 4 * sp.pi * f1 * sp.Function("c.vw")(i) * Fn["dV"](c, sp.Function("c.vx")(i) * f1 + f2), 10, zmin, zmax, reversed_too=False)
+    chk.ob("R11.1", "V::ten-point-sum-times-4pi", ok, W, "V = 4 pi * (b-a)/2 * sum_{i<10} vw_i dV((b-a)/2 vx_i + (a+b)/2) (found %s%s)" % (t, "; " + why if why else ""))
     t = low("scinv")
     dpos, zlr = sp.Symbol("d_pos", positive=True), sp.Symbol("zl", real=True)
     front = [_case(t, {zl: zlr, zs: zlr}), _case(t, {zl: zlr, zs: zlr - dpos})]
